@@ -44,6 +44,9 @@ func _evalStmts(
 
 		if _defer, ok := val.(*object.DeferObj); ok {
 			deferObjs = append(deferObjs, *_defer)
+			// NOTE: defer does not return anything
+			// (DeferObj must not leak, otherwise the caller evaluates it again)
+			val = object.BuiltInNil
 		}
 
 		if val.Type() == object.YieldType {
